@@ -34,6 +34,7 @@ type Engine struct {
 	fset     *token.FileSet
 	overlay  map[string][]byte
 	cg       *callgraph.Graph
+	regexGlobals map[*ssa.Global]regexFact
 }
 
 func (e *Engine) errorf(format string, args ...interface{}) {
@@ -119,6 +120,7 @@ func LoadEngine(repo string, overlay map[string][]byte, libDir string) (*Engine,
 	}
 	e.cs = cs
 	e.initExterns()
+	e.scanRegexGlobals()
 	return e, nil
 }
 
@@ -204,6 +206,11 @@ func (e *Engine) contractFor(f *ssa.Function) *FuncContract {
 		}
 	}
 	if ct, ok := e.cs.Funcs[e.funcKey(f)]; ok {
+		if ct.Sweep && !ct.HasMods && len(ct.Ensures) == 0 {
+			// a bare safety sweep says nothing to callers: they see the function as if it had
+			// no contract (inlined when small, abstracted otherwise)
+			return nil
+		}
 		return ct
 	}
 	// dependency: keyed by import path + local name
